@@ -68,6 +68,9 @@ pub(crate) mod sim;
 #[cfg(feature = "fs")]
 mod submit;
 
+#[cfg(all(turmoil_verif, feature = "fs"))]
+pub mod verif;
+
 #[cfg(feature = "fs")]
 pub use async_fd::{AsyncFd, AsyncFdReadyGuard};
 #[cfg(feature = "fs")]
